@@ -8,7 +8,7 @@ from vlib import big, bitstr_of_list
 PROP = 'C08'
 TRACE_MODULE = 'C08Trace.tla'
 RULE = ('behaviours of the full-size TonBag machine chosen by TLC in simulation mode (24 / 40 calls each) replayed call by call, and seeded-random behaviours of 30-60 calls over <= 12 live objects: new_builder, typed stores, store_ref/cell/slice, end_cell, '
-        'begin_parse / Slice.from_cell, loads/peeks/skips, to_builder, to_cell, copy, Cell(plain bitarray), Cell.order() with '
+        'begin_parse / Slice.from_cell, loads/peeks/skips, to_builder, to_cell, copy, Cell(plain bitarray), dictionary / message / VM-stack cells read by the parsers of the library (parse_as), Cell.order() with '
         'and without its argument, hash/to_boc observation, forget; distinct = distinct (op, kind of target, pool size) steps '
         'and distinct behaviours')
 ASSUMPTIONS = ['TonBag.Do gives the owned object of each call; everything else must be unchanged (frame)',
@@ -58,7 +58,9 @@ def behaviour(p, rng, steps):
             if S:
                 ops += ['store_slice']
         if C:
-            ops += ['begin_parse', 'begin_parse', 'cell_copy', 'cell_to_builder', 'order', 'order', 'observe']
+            ops += ['begin_parse', 'begin_parse', 'cell_copy', 'cell_to_builder', 'order', 'order', 'observe', 'parse_as', 'parse_as']
+        if len(p.objs) < 7:
+            ops += ['adopt_structured']
         if S:
             ops += ['load', 'load', 'load', 'preload', 'skip_bits', 'slice_to_cell', 'slice_copy', 'slice_to_builder']
         ops += ['cell_from_bits']
@@ -94,6 +96,21 @@ def behaviour(p, rng, steps):
             p.call({'op': op, 'obj': rng.choice(C), 'via': rng.choice(['default', 'default', 'explicit', 'reuse', 'edit']), 'other': rng.choice(C)})
         elif op == 'observe':
             p.call({'op': op, 'obj': rng.choice(C)})
+        elif op == 'adopt_structured':
+            # a cell with the shape one of the library's parsers expects (a small dictionary, a message, a VM stack) joins the pool,
+            # children included; it is parsed right away and again later, among the other operations
+            kind, cell = structured_cell(rng)
+            i = p.adopt_tree(cell)
+            if i:
+                STRUCT[i] = kind
+                p.call(dict({'op': 'parse_as', 'obj': i}, **kind))
+        elif op == 'parse_as':
+            known = [i for i in C if i in STRUCT]
+            if known and rng.random() < 0.8:
+                i = rng.choice(known)
+                p.call(dict({'op': 'parse_as', 'obj': i}, **STRUCT[i]))
+            else:
+                p.call({'op': 'parse_as', 'obj': rng.choice(C), 'as': rng.choice(['dict', 'dict_aug', 'message', 'stateinit']), 'w': rng.choice([1, 3, 8])})
         elif op in ('load', 'preload'):
             rd = rng.choice([{'what': 'bits', 'n': rng.choice([0, 1, 4, 9])}, {'what': 'uint', 'w': rng.choice([1, 3, 8])},
                              {'what': 'int', 'w': rng.choice([1, 4])}, {'what': 'bit'}, {'what': 'ref'}, {'what': 'maybe_ref'},
@@ -117,6 +134,35 @@ def behaviour(p, rng, steps):
                 p.call({'op': 'forget', 'ids': [i]})
 
 
+STRUCT = {}          # pool id -> how to parse it (reset with every behaviour)
+
+
+def structured_cell(rng):
+    from pytoniq_core.boc import Builder, Address
+    from pytoniq_core.boc.hashmap.hashmap import HashMap
+    k = rng.choice(['dict', 'dict', 'dict_via_holder', 'dict_aug', 'message', 'vmstack'])
+    if k in ('dict', 'dict_via_holder'):
+        w = rng.choice([3, 8, 16])
+        hm = HashMap(w).with_uint_values(8)
+        for _ in range(rng.randint(2, 6)):
+            hm.set_int_key(rng.getrandbits(w), rng.getrandbits(8))
+        return {'as': k, 'w': w}, hm.serialize()
+    if k == 'dict_aug':
+        # hand-made HashmapAug 1: a fork with two leaves (label '00', extra 4 bits, value)
+        leaf = lambda v: Builder().store_bits('00').store_uint(v & 15, 4).store_uint(v, 8).end_cell()
+        return {'as': k, 'w': 1}, Builder().store_bits('00').store_ref(leaf(rng.getrandbits(8))).store_ref(leaf(rng.getrandbits(8))).store_uint(9, 4).end_cell()
+    if k == 'message':
+        from pytoniq_core.tlb.transaction import MessageAny, InternalMsgInfo
+        from pytoniq_core.tlb.block import CurrencyCollection
+        info = InternalMsgInfo(True, False, False, Address((0, bytes(rng.getrandbits(8) for _ in range(32)))),
+                               Address((-1, bytes(rng.getrandbits(8) for _ in range(32)))), CurrencyCollection(rng.randint(0, 10 ** 9)), 0, 0, 5, 7)
+        body = Builder().store_uint(rng.getrandbits(32), 32).store_ref(Builder().store_uint(7, 8).end_cell()).end_cell()
+        return {'as': k}, MessageAny(info, None, body).serialize()
+    from pytoniq_core.tlb.vm_stack import VmStack
+    vals = [rng.randint(-5, 5), Builder().store_uint(rng.getrandbits(8), 8).end_cell(), [1, [2, 3]], None][:rng.randint(1, 4)]
+    return {'as': 'vmstack'}, VmStack.serialize(vals)
+
+
 def generate(tier, seed, ctx):
     rng = random.Random(seed)
     nbeh = 300 if tier == 'quick' else 5000
@@ -127,6 +173,7 @@ def generate(tier, seed, ctx):
             shards.append(pool.records)
         else:
             pool.reset()
+        STRUCT.clear()
         behaviour(pool, rng, rng.randint(30, 60))
     # spec -> code: behaviours of the TonBag machine chosen by TLC (simulation mode), replayed call by call; what the library
     # did is recorded like everything else and goes back to TLC for validation
